@@ -125,6 +125,13 @@ EndViol(o, en) ==
                 /\ \A y \in AllActors(o) : y.kind = "Stopped" \/ Last(y.sched) = "none"
                 /\ o.sem[q + 1] # cur.scen.conc[q + 1] } }
   \cup
+  \* (single computation: the only possible holder of the party's permit is this policy)
+  { V("C17", "cancel was invoked and nothing can move any more, but the policy has not ended and the leader's permit is still taken"
+             \o " (cancel handled in state " \o ck[<< x.c, x.p >>] \o ", "
+             \o ToString(Cardinality({ y \in AllActors(o) : y.cancl # << >> })) \o " parties cancelling)", x.c, x.p) :
+      x \in { y \in AllActors(o) : /\ NC = 1 /\ Last(y.cancl) = "called" /\ o.parked = << >>
+                                   /\ IsLeader(y.c, y.p) /\ o.sem[y.p + 1] # cur.scen.conc[y.p + 1] } }
+  \cup
   { V("C17", "a " \o f[3] \o " call to a peer failed but the policy did not end at the caller", f[1], f[2]) :
       f \in { g \in failed : Actor(o, g[1], g[2]).kind # "Stopped" } }
   \cup
